@@ -1,5 +1,6 @@
 import Mochi.Model.Broker
 import Mochi.Lemmas.AckRes
+import Mochi.Lemmas.BrokerInbound
 /-!
 # C08 — Inbound QoS 2 messages are forwarded exactly once
 
@@ -56,5 +57,70 @@ theorem C08_pubrel_releases (c : Client) (id : Nat) : flGet (flDelete c id).1 id
   intro m hm
   have := (List.mem_filter.mp hm).2
   simpa using this
+
+/-! ## The open inbound exchange survives every op that does not end it (all 12 op kinds, all histories)
+
+Definitions (`Mochi/Lemmas/BrokerInbound.lean`, `BrokerInboundWalk.lean`): `InOpen s cid k` — the object REGISTERED under
+`cid` holds under packet identifier `k` an in-flight record of type 5 (PUBREC) that is not deferred by flow control
+(`0 ≤ expiry`; `processPublish` files it with `expiry = NOW + maximum`); `InEnds s cid k op` (decidable) — the ops that may
+end the exchange in state `s`: the client's PUBREL `k`; PUBACK / PUBCOMP / PUBREC `k` from the client (one in-flight map for
+both directions, F10 — PUBREC `k` with a success code REPLACES the record by a PUBREL record and is answered PUBREL);
+an admitted CONNECT for `cid` with Clean Start or over an MQTT 3 clean session; the `clients` tick when the session is
+due; the `inflight` tick when the record is due; the end of a connection of `cid` whose session ends with it (drop,
+DISCONNECT, an erroring packet, a parked handler's clean-up).  NOT in the list: a PUBLISH of the client under the same
+identifier at any QoS (it is answered PUBREC 0x91 and nothing else happens — `processPublish`, server.go:920-925; for
+QoS 1 the answer is a PUBREC too, to an MQTT 3 client with reason 0 on the wire); an outbound delivery to the client
+(`NextPacketID` skips identifiers in use: `nextPacketID_fresh`). -/
+
+/-- **C08, one op.**  The inbound exchange `k` of `cid` is still open after EVERY op — of any of the 12 kinds — that
+    `InEnds s cid k` does not list (after a resumption / take-over the record is in the NEW object). -/
+theorem C08_inbound_record_survives_step (s : Server) (op : Op) (cid : Str) (k : Nat) (hw : WF s)
+    (hsync : SyncInv s) (hf : OpFresh s op) (h : InOpen s cid k) (hne : ¬ InEnds s cid k op) :
+    InOpen (step s op).1 cid k := by
+  obtain ⟨m, hm⟩ := (InOpen_iff s cid k).mp h
+  exact (InOpen_iff _ cid k).mpr ⟨m, inbound_record_survives_step s op cid k m hw hsync hf hm hne⟩
+
+/-- … and it is the very same record (`InOpenRec s cid k m`: the registered object's record under `k` is `m`) -/
+theorem C08_inbound_record_same_step (s : Server) (op : Op) (cid : Str) (k : Nat) (m : Msg) (hw : WF s)
+    (hsync : SyncInv s) (hf : OpFresh s op) (h : InOpenRec s cid k m) (hne : ¬ InEnds s cid k op) :
+    InOpenRec (step s op).1 cid k m :=
+  inbound_record_survives_step s op cid k m hw hsync hf h hne
+
+/-- **C08, op lists** (`InNoEnds`: no op of the list is in `InEnds` in the state it is applied to) -/
+theorem C08_inbound_record_survives_run (s : Server) (ops : List Op) (cid : Str) (k : Nat) (hw : WF s)
+    (hsync : SyncInv s) (hf : OpsFresh s ops) (hok : OpsSchedOK s ops) (h : InOpen s cid k)
+    (hne : InNoEnds s cid k ops) : InOpen (run s ops) cid k := by
+  obtain ⟨m, hm⟩ := (InOpen_iff s cid k).mp h
+  exact (InOpen_iff _ cid k).mpr ⟨m, inbound_record_survives_run s ops cid k m hw hsync hf hok hm hne⟩
+
+theorem q08_OpsFresh_app {s : Server} {a b : List Op} (h : OpsFresh s (a ++ b)) :
+    OpsFresh s a ∧ OpsFresh (run s a) b := by
+  induction a generalizing s with
+  | nil => exact ⟨trivial, h⟩
+  | cons x xs ih =>
+    obtain ⟨h1, h2⟩ := ih h.2
+    exact ⟨⟨h.1, h1⟩, h2⟩
+
+theorem q08_OpsSchedOK_app {s : Server} {a b : List Op} (h : OpsSchedOK s (a ++ b)) :
+    OpsSchedOK s a ∧ OpsSchedOK (run s a) b := by
+  induction a generalizing s with
+  | nil => exact ⟨trivial, h⟩
+  | cons x xs ih =>
+    obtain ⟨h1, h2⟩ := ih h.2
+    exact ⟨⟨h.1, h1⟩, h2⟩
+
+theorem q08_run_append (s : Server) (a b : List Op) : run s (a ++ b) = run (run s a) b := by
+  unfold run; rw [List.foldl_append]
+
+/-- **C08, histories from the initial state**: once the exchange is open (after `pre`), it is open after any
+    continuation none of whose ops ends it — through disconnections, resumptions and take-overs. -/
+theorem C08_inbound_record_survives_history (caps : Caps) (pre ops : List Op) (cid : Str) (k : Nat)
+    (hf : OpsFresh (init caps) (pre ++ ops)) (hok : OpsSchedOK (init caps) (pre ++ ops))
+    (h : InOpen (run (init caps) pre) cid k) (hne : InNoEnds (run (init caps) pre) cid k ops) :
+    InOpen (run (init caps) (pre ++ ops)) cid k := by
+  rw [q08_run_append]
+  obtain ⟨f1, f2⟩ := q08_OpsFresh_app hf
+  obtain ⟨o1, o2⟩ := q08_OpsSchedOK_app hok
+  exact C08_inbound_record_survives_run _ ops cid k (WF_run caps pre f1) (SyncInv_run caps pre f1 o1) f2 o2 h hne
 
 end Mochi.Broker
